@@ -402,6 +402,10 @@ fn audit(report: &Report, strings: &[String]) {
                 masked.insert("empty token followed by further tokens (daemon tokenizer stalls on an empty key)");
                 continue;
             }
+            if s.contains("arg+") {
+                masked.insert("arg+1: the daemon reads the index with strtoul, which takes a sign; not part of the grammar");
+                continue;
+            }
             machinery_failure(&format!(
                 "C22 audit: conformant parser and dbus-daemon disagree on {s:?}: refmatch {:?}, daemon {:?}",
                 want.map(|r| refmatch::print(&r)),
